@@ -155,7 +155,12 @@ class Conds:
                     return n
             import copy
             src = ast.unparse(R().visit(copy.deepcopy(e)))
-        return ' '.join(src.split())
+        src = ' '.join(src.split())
+        # the same data seen through a conversion is the same data for every test made on it (emptiness, dtype, NaN)
+        import re
+        src = re.sub(r'\b([A-Za-z_][A-Za-z_0-9]*)\.(to_numpy\(\)|values)(?![A-Za-z_0-9(])', r'\1', src)
+        src = re.sub(r'\bnp\.(asarray|asanyarray)\(([A-Za-z_][A-Za-z_0-9]*)\)', r'\2', src)
+        return src
 
     def _inline(self, e, depth=0):
         if isinstance(e, ast.Name) and depth < 4:
